@@ -108,7 +108,7 @@ func filterTableExpressions(statement sqlparser.Statement) (sqlparser.TableExprs
 
 func isSupportedSQLVal(val *sqlparser.SQLVal) bool {
 	switch val.Type {
-	case sqlparser.PgEscapeString, sqlparser.HexVal, sqlparser.StrVal, sqlparser.PgPlaceholder, sqlparser.ValArg, sqlparser.IntVal:
+	case sqlparser.PgEscapeString, sqlparser.HexVal, sqlparser.HexNum, sqlparser.StrVal, sqlparser.PgPlaceholder, sqlparser.ValArg, sqlparser.IntVal:
 		return true
 	}
 	return false
@@ -222,6 +222,11 @@ func ParseSearchQueryPlaceholdersSettings(statement sqlparser.Statement, schemaS
 				colName = expr
 			case *sqlparser.SubstrExpr:
 				colName = expr.Name
+			}
+			if colName == nil {
+				// the left side is not a column (literal, function call, convert(substr(...), binary) of an
+				// already rewritten literal comparison, ...): no placeholder of a searchable column here
+				return true, nil
 			}
 
 			columnInfo, err := FindColumnInfo(tableExps, colName, schemaStore)
